@@ -174,16 +174,19 @@ PROPS = {
         "level_note": "Trusted: Lean kernel, Mathlib; SQLite and shims. Modelled, not verified: DISTINCT splitting and re-join, public-key left join (execution oracle only).",
     },
     "C05": {
-        "lean_modules": ["QrlewModel.Props.C05"],
+        "lean_modules": ["QrlewModel.Props.C05", "QrlewModel.Props.C05Tree"],
         "streams": [
             {"name": "c05", "n_quick": 2500, "n_thorough": 100000, "compare": False, "min_per_proc": 50},
+            {"name": "pup", "n_quick": 3000, "n_thorough": 120000, "compare": True, "min_per_proc": 100},
         ],
         "rule": "c05: 12 query shapes (maps with filters, joins of two tracked relations along the foreign key, joins with the public table on either side, INNER/LEFT/RIGHT/FULL, per-unit and public-key reduces, UNION, ORDER BY/LIMIT, CTE with per-unit aggregate, self-join) x both strategies x databases of 2-12 units: "
-                "the real privacy-unit-preserving relation is executed on D and on D with all other units' protected rows deleted; the unit's rows are compared as multisets; NULL unit ids / weights reported; non-trivial = the unit has rows",
+                "the real privacy-unit-preserving relation is executed on D and on D with all other units' protected rows deleted; the unit's rows are compared as multisets; NULL unit ids / weights reported; non-trivial = the unit has rows. "
+                "pup (model ≡ implementation): random operator trees of depth ≤ 3 (map, filter, join of two tracked inputs, inner / left join with a public table, UNION / UNION ALL, GROUP BY with sum or count) over two protected tables ta, tb (0-8 rows, 4 units, NULLs) and a public table pp, "
+                "written as a chain of CTEs: the real rewrite_as_privacy_unit_preserving (strategy Hard) executed on SQLite, the bag of (unit, weight, c0, c1) compared with Qrlew.PupTree.eval; cases in which the rewriting chose a DP sub-relation are skipped; non-trivial = the result is non-empty",
         "trusted_base": COMMON_TRUST + ["SQLite 3.40 + harness shims as executor", "md5 replaced by an injective text function"],
-        "assumptions": ["the model covers operators on bags of (unit, row); foreign-key path joins and hashing are exercised by the execution oracle only"],
+        "assumptions": ["the model covers operators on bags of (unit, weight, row) over nullable integers; foreign-key path joins, hashing of the unit id, expressions other than column + constant and comparisons other than > are exercised by the execution oracle only"],
         "technique": "Lean 4 proof (restriction to a unit commutes with every tracked operator: map, filter, union, join of tracked relations with unit equality, inner/left join with a published relation, per-unit reduce; kernel-checked counterexamples for LIMIT and outer joins preserving the untracked side) + execution oracle on the real rewriting",
-        "level_text": "Theorems (Props/C05.lean) for bags of any size and any row functions/predicates: the rows attributed to a unit by map, filter, union, tracked-tracked join (unit equality), inner and left join with a published relation, and per-unit reduce are exactly those obtained from the inputs restricted to that unit; counterexamples for a kept LIMIT and for outer joins preserving the published side (NULL unit). The real rewriting is executed on SQLite on D and on D restricted to one unit and the unit's rows compared.",
+        "level_text": "Theorem restrict_eval (Props/C05Tree.lean): for EVERY tree of tracked operators (any shape and depth; map, filter, tracked-tracked join, inner/left join with a public table, UNION [ALL], per-unit reduce), every database and every unit u, the output rows attributed to u equal the output on the database with all other units' protected rows deleted (corollary eval_depends_on_own_unit); the tree evaluator is the model compared line by line with the real rewriting by the pup stream. Theorems (Props/C05.lean) for bags of any size and any row functions/predicates: the rows attributed to a unit by map, filter, union, tracked-tracked join (unit equality), inner and left join with a published relation, and per-unit reduce are exactly those obtained from the inputs restricted to that unit; counterexamples for a kept LIMIT and for outer joins preserving the published side (NULL unit). The real rewriting is executed on SQLite on D and on D restricted to one unit and the unit's rows compared.",
         "level_note": "Trusted: Lean kernel; SQLite and shims. Modelled, not verified: the IR-to-IR transformers themselves (table path joins, renaming) are observed through execution only.",
     },
     "C04": {
